@@ -42,7 +42,7 @@ def obligations(tier):
         Ob('A1e', 'S', 'leading empty files (files are sorted by size) are recorded (zero-length ref, digest, metadata) by the chunk starting at 0',
            '3 files (first one or two empty), unbounded sizes', [REPO_FUNCS['cd']], module=H, func='a1_empty_file_recorded', timeout=120),
         Ob('L1', 'S', 'stream layout: every file occupies [start,end) of its size, starts aligned with <4 bytes zero padding, in list order; '
-           'digest/metadata set; yielded bytes == bytes_with_padding', '3 files, <=3 read pieces per file, piece size symbolic',
+           'digest/metadata set; yielded bytes == bytes_with_padding', '3 files, <=3 read pieces per file, piece size symbolic, fstat-reported size independent of the bytes read',
            [REPO_FUNCS['sf']], module=H, func='l1_layout', timeout=600),
         Ob('P1', 'S', 'restore plan: reference k in counter order is written at offset sum of earlier lengths, from the range start, '
            'for the digest its index names', '1 file, 3 refs, arbitrary ranges/counters/list order/indices',
@@ -55,8 +55,8 @@ def obligations(tier):
            [REPO_FUNCS['rm']], module=H, func='m1_metadata', timeout=60),
         Ob('E.sizes', 'E', 'real snapshot+restore is the identity: 2 file sizes over the boundary pool x content kind x chunking',
            '11x11x2x2 = 484 vectors', [REPO_FUNCS['sn'], REPO_FUNCS['rs']], module=H, func='e_sizes', timeout=600, shards=4),
-        Ob('E.args', 'E', 'argument-list spellings (dir, files, repeat, overlap, non-normalised, symlinks) x sizes: every reached file '
-           'restored exactly once', '9x3x3x2 = 162 vectors', [REPO_FUNCS['fp'], REPO_FUNCS['sn'], 'replicat.utils.fs:flatten_paths'],
+        Ob('E.args', 'E', 'argument-list spellings (dir, files, repeat, overlap, non-normalised, file/dir symlinks, a dir link aliasing a walked dir) x sizes: every reached file '
+           'restored exactly once', '10x3x3x2 = 180 vectors', [REPO_FUNCS['fp'], REPO_FUNCS['sn'], 'replicat.utils.fs:flatten_paths'],
            module=H, func='e_args', timeout=600, shards=2),
         Ob('E.pre', 'E', 'pre-existing target state (none/shorter/longer/different/elsewhere) x sizes: restored bytes exact, others untouched',
            '6x4x3x2 = 144 vectors', [REPO_FUNCS['rs'], REPO_FUNCS['wp']], module=H, func='e_pre', timeout=600, shards=2),
